@@ -296,6 +296,62 @@ class Shapes(SubCheck):
             out.fail("length of shape and Path(shape) differ", l2, l1, kind="length", **tags)
 
 
+class AutoRadius(SubCheck):
+    """a rect with exactly one corner radius given: the other one is the *used* value of the given one (SVG 1.1 and 2
+    agree on that, whatever a percentage refers to), so both corner radii are equal unless a half-size clamps one"""
+    name = "auto-radius"
+
+    def __init__(self, svg):
+        self.svg = svg
+        self.p = Product([(40.0, 20.0), (20.0, 40.0), (30.0, 30.0)], ["rx", "ry"],
+                         ["25%", "10%", "5", 5, 2.5, "0.05in", "3pt", "12.5%"], ["kw", "dict", "parsed"])
+
+    def size(self):
+        return len(self.p)
+
+    def case(self, i):
+        (w, h), which, val, how = self.p[i]
+        return dict(w=w, h=h, which=which, val=val, how=how)
+
+    def run(self, case):
+        import io
+        out = Outcome()
+        svg = self.svg
+        w, h, which, val, how = case["w"], case["h"], case["which"], case["val"], case["how"]
+        if how != "parsed" and isinstance(val, str) and val[-2:] in ("in", "pt"):
+            return out      # absolute units need the ppi of a render context: parsed documents only
+        try:
+            if how == "kw":
+                r = svg.Rect(x=1, y=2, width=w, height=h, **{which: val})
+            elif how == "dict":
+                r = svg.Rect({"x": "1", "y": "2", "width": repr(w), "height": repr(h), which: str(val)})
+            else:
+                doc = ('<svg xmlns="http://www.w3.org/2000/svg" width="200" height="100"><rect x="1" y="2" width="%r" height="%r" '
+                       '%s="%s"/></svg>' % (w, h, which, val))
+                r = [e for e in svg.SVG.parse(io.StringIO(doc)).elements() if isinstance(e, svg.Rect)][0]
+            segs = list(r.segments(transformed=False))
+        except Exception as e:  # noqa
+            out.fail("rect with only %s=%r (%s) raised %s" % (which, val, how, type(e).__name__), None, repr(e), kind="exception", **case)
+            return out
+        out.traces += 1
+        out.nontrivial.append((w, h, which, str(val), how))
+        arcs = [s for s in segs if type(s).__name__ == "Arc"]
+        if not arcs:
+            out.fail("rect with %s=%r has no rounded corners" % (which, val), kind="auto-radius", **case)
+            return out
+        a = arcs[0]
+        rx, ry = abs(a.end.x - a.start.x), abs(a.end.y - a.start.y)
+        lim = min(w, h) / 2.0
+        out.outcome = (round(rx, 6) == round(ry, 6), max(rx, ry) < lim - 1e-9)
+        if max(rx, ry) < lim - 1e-9 and abs(rx - ry) > 1e-9 * max(rx, ry):
+            out.fail("rect %gx%g with only %s=%r (%s): corner radii %r x %r; the omitted radius must take the used value of "
+                     "the given one" % (w, h, which, val, how, rx, ry), [max(rx, ry)] * 2, [rx, ry], kind="auto-radius", **case)
+        return out
+
+    def unit_test(self, case):
+        return None
+
+
 def stale_check(svg, tier):
     from props import stale
     measures = {
@@ -318,7 +374,7 @@ def stale_check(svg, tier):
 
 
 def build(tier, seed, svg):
-    return [Shapes(svg, tier), stale_check(svg, tier)]
+    return [Shapes(svg, tier), AutoRadius(svg), stale_check(svg, tier)]
 
 
 def m_round_direction(d):
